@@ -1,2 +1,12 @@
 """Classifiers of the open known findings (known_findings.json).  A classifier recognises exactly the
 documented failing input class from a violation record; it is never extended at run time."""
+
+
+def image_parameters_close_points_not(rec):
+    """F-C16c: two ImageMesh objects whose spacing differs by LESS than the absolute tolerance (all defining parameters agree
+    within tolerance, so parameter-wise equality answers 'equal') while the points generated far from the origin differ by
+    more than the tolerance.  Only this input class: image meshes, spacing difference below tolerance."""
+    c = rec.get("case") or {}
+    ch = c.get("changed") or [None]
+    return (rec.get("property") == "C16" and c.get("kind") == "image" and ch[0] == "spacing-below-tolerance"
+            and "image meshes compare equal although their points differ" in rec.get("what", ""))
